@@ -31,6 +31,9 @@ type witness struct {
 	// NoCounters: the searches are started without WithCounters (as the UCI driver does); node
 	// counts are read from the info lines.
 	NoCounters bool `json:"no_counters"`
+	// Resets: move index -> "clear" (ucinewgame) or "resize:<bytes>" (setoption Hash + clear), applied
+	// to all three engines alike before that move: the stored state is reset the same way.
+	Resets map[int]string `json:"resets,omitempty"`
 }
 
 // run executes one search; without counters the node count is the last reported one.
@@ -96,6 +99,17 @@ func game(r *ev.Run, wk int, w *witness, verbose bool) (ok bool) {
 		root := strace.NewRoot(start, ms)
 		if root.Final() {
 			break
+		}
+		if act, ok := w.Resets[i]; ok {
+			for _, e := range []*search.Search{a, b, c} {
+				if act != "clear" {
+					var n int
+					fmt.Sscanf(act, "resize:%d", &n)
+					e.ResizeTT(n)
+				}
+				e.Clear()
+			}
+			r.Count("engine_resets_"+strings.SplitN(act, ":", 2)[0], 1)
 		}
 		r.Current(wk, map[string]any{"start": w.Start, "tt": w.TTBytes, "move": i})
 		ra := run(a, &root, w.NoCounters, search.WithSoftNodes(soft))
@@ -244,6 +258,17 @@ func TestCheck(t *testing.T) {
 			w.SoftNodes = append(w.SoftNodes, 2000+rng.IntN(18000))
 			if rng.IntN(5) == 0 || (k == 0 && rng.IntN(2) == 0) {
 				w.SoftNodes[k] = 1 + rng.IntN(4+26*rng.IntN(2)) // tiny limits: the search stops at the first completed depth with a move
+			}
+		}
+		if rng.IntN(3) == 0 {
+			w.Resets = map[int]string{}
+			for k := 0; k < 2; k++ {
+				at := 1 + rng.IntN(moves)
+				if rng.IntN(2) == 0 {
+					w.Resets[at] = "clear"
+				} else {
+					w.Resets[at] = fmt.Sprintf("resize:%d", []int{32000, 64000, 1 << 20, 2 << 20}[rng.IntN(4)])
+				}
 			}
 		}
 		if w.NoCounters {
